@@ -181,6 +181,24 @@ func runC14(c *ctx) {
 				c.emit(obj{"op": "hang", "obs": obj{}})
 				break
 			}
+			if r.chance(35) {
+				// a name-table response with two resource slots: the decoder reads the FIRST slot (the control plane sends one
+				// table per response). An undecodable first slot rejects the response as a whole - the well-formed table behind
+				// it is not installed, the table in force stays the last accepted one; a well-formed first slot is the new table,
+				// whatever follows it.
+				var moved []kv
+				for i, e := range tbl {
+					moved = append(moved, kv{e.k, []string{fmt.Sprintf("10.250.%d.%d", ti, i+1)}})
+				}
+				if r.bool() {
+					w.push(mkResp(xdsresource.NameTableTypeURL, fmt.Sprintf("rej%d", ti), fmt.Sprintf("rn%d", ti), []*anypb.Any{badAny("nds", r.intn(2)), anyNameTable(moved)}))
+					c.count("table-rejected", 1)
+				} else {
+					w.push(mkResp(xdsresource.NameTableTypeURL, fmt.Sprintf("two%d", ti), fmt.Sprintf("rn%d", ti), []*anypb.Any{anyNameTable(moved), badAny("nds", r.intn(2))}))
+					tbl = moved
+					c.count("table-first-slot-of-two", 1)
+				}
+			}
 			for q := 0; q < 40; q++ {
 				var h string
 				if r.chance(75) {
